@@ -257,7 +257,8 @@ def gen_closed_case(rng, libs, world):
     for i in isets:
         for n, m in (py_denote(world, i) or []):
             o = py_origin(libs, world, iset_lib(i), m)
-            if o and o[1] in WRAPPERS and n not in macs:
+            # (a macro whose visible name is itself a declared free name -- x, it -- would be looked up in the macro's context)
+            if o and o[1] in WRAPPERS and n not in macs and n not in ("x", "it"):
                 macs.append(n)
     if not macs:
         return None
@@ -425,7 +426,13 @@ def run(ctx):
                        "chibi vs the code translated from the same source, on the same import sets plus a malformed stream; the frames of the "
                        "importing environment ((env-exports frame) down the parent chain) vs the extracted Env.env_import.  module table: per graph "
                        "2-5 further libraries with arbitrary imports (self, cycles, missing libraries) loaded 4-8 times in one process vs the "
-                       "extracted Load.run_history (per step success/error, exact order of body evaluations).  thorough adds the enumeration of "
+                       "extracted Load.run_history (per step success/error, exact order of body evaluations).  closed probes (round 2): every library also "
+                       "defines/exports/renames macros that wrap a user form (sc-macro-transformer closing it with free names (it) / (it x) / none, er-macro-transformer); "
+                       "per graph 6 (thorough 16) programs plus most top-level programs import such macros from a library M (plain, only, prefixed, renamed) next to "
+                       "1-2 import sets of their own that differ from M's imports, and probe EVERY candidate name inside the user-code position of each visible "
+                       "wrapper and of 1-2 nestings of depth 2-3, in pair form (name) and identifier form name; oracle = the SPEC origin of the name in the program "
+                       "(exactly as outside the macro), the extracted SynClo.closed_probe classifies the standing leak F-C14-2 for unbound names; a closed probe is "
+                       "distinct by (graph shape, imports, wrapper kinds, template, name).  thorough adds the enumeration of "
                        "all import sets of depth <= 2 over a 4-name library with swapped renamed exports (11+ id lists, 8 rename lists, 3 prefixes).")
     # ------------------------------------------------------------------ (G) + (T)
     gen_ok = G.regen(ctx)
@@ -673,6 +680,14 @@ def run(ctx):
             _check_bodies(ctx, d, moddir, gr, libs, tb, tneeded, prog, top=True)
 
 
+    if not ctx.cov.get("standing_leak_cases"):
+        ctx.note("the standing leak F-C14-2 (names of the macro library visible in free-names closures) was not observed in this run")
+    if os.environ.get("C14_DEBUG"):
+        with open(os.environ["C14_DEBUG"], "w") as fh:
+            for u in ctx.unproved:
+                fh.write(repr(u)[:1500] + "\n")
+
+
 def _check_bodies(ctx, d, moddir, gr, libs, bodies, needed, casefile, top=False):
         # each library body at most once per process, exactly once when one of its bindings was delivered
         for t in libs:
@@ -853,10 +868,15 @@ def leak_registered():
 
 
 def replay_closed(d, moddir, isets, tmpl, name, top=False):
-    form = tmpl.replace("<>", sym(name))
-    prog = "(import (scheme base) (scheme write) (scheme eval)) (write (eval '%s (environment %s)))" % (form, " ".join("'" + iset_str(i) for i in isets))
+    """both probe forms: <> := (name) (a plain value shows as the irritant of "non procedure application") and <> := name"""
+    g = "(guard (e (#t (list 'error (error-object-message e) (error-object-irritants e)))) %s)"
+    f1, f2 = tmpl.replace("<>", "(%s)" % sym(name)), tmpl.replace("<>", sym(name))
     if top:
-        prog = "(import (scheme base) (scheme write) %s) (write %s)" % (" ".join(iset_str(i) for i in isets), form)
+        prog = "(import (scheme base) (scheme write) %s) (write %s) (newline) (write %s)" % (" ".join(iset_str(i) for i in isets), g % f1, g % f2)
+    else:
+        env = "(environment %s)" % " ".join("'" + iset_str(i) for i in isets)
+        prog = "(import (scheme base) (scheme write) (scheme eval)) (define env %s) (write %s) (newline) (write %s)" % (
+            env, g % ("(eval '%s env)" % f1), g % ("(eval '%s env)" % f2))
     return "echo \"%s\" > /var/tmp/c14-replay.scm; LD_LIBRARY_PATH=%s CHIBI_IGNORE_SYSTEM_PATH=1 CHIBI_MODULE_PATH=%s:%s %s/chibi-scheme /var/tmp/c14-replay.scm" % (
         prog.replace('"', '\\"'), d, os.path.join(d, "lib"), moddir, d)
 
@@ -886,10 +906,15 @@ def _judge_closed(ctx, d, moddir, gr, c, got, spec, libs, ticks, needed):
         kinds = "+".join(l["kinds"])
         sigbase = "closed:%s:" % l["kinds"][0]
         ctx.cov["traces_validated_against_impl"] += 1
-        for name, s, mtok, g in zip(names, spec, l["model"], res):
+        for name, s, mtok, g0 in zip(names, spec, l["model"], res):
             ctx.count(1, key=("closed", shape, text.replace(gr["gid"], "G"), tuple(l["kinds"]), tmpl, name), nontrivial=(s != "A"))
             pre = dict(ticks)
-            ticked = _observe_tick(ticks, g)
+            # the driver answers one value, or (c14-both pair-form identifier-form) when <> := (name) and <> := name see different things
+            if isinstance(g0, tuple) and len(g0) == 3 and g0[0] == "c14-both":
+                obs = [("", g0[1]), (":identifier-form", g0[2])]
+            else:
+                obs = [("", g0)]
+            ticked = _observe_tick(ticks, obs[0][1])
             if s == "A":
                 continue
             if mtok.startswith("O:"):
@@ -897,50 +922,57 @@ def _judge_closed(ctx, d, moddir, gr, c, got, spec, libs, ticks, needed):
                 mval = _expect_value(libs, pre, mlib, mm) if mlib in libs else None
             else:
                 mval = "unbound"
-            if name in free:
-                # a declared free name is looked up in the macro's context (the documented meaning of free names): no SPEC verdict,
-                # the model of the code must predict it
-                if mtok != "L" and g != mval:
-                    ctx.broken("correspondence:closed-free-name", "free name %s inside %s with imports %s: model %s, chibi %r" % (name, tmpl, text, mtok, g))
-                continue
-            if s == "U":
+            if s not in ("U",) and name not in free:
+                _, lib, m = s.split(":", 2)
+                if lib not in libs:
+                    ctx.broken("spec-driver", "origin names an unknown library: %s" % s)
+                    continue
+                if mtok != s:
+                    ctx.broken("model:closed-vs-spec", "%s inside %s with imports %s: SynClo.closed_probe says %s, Spec.program_origin %s (theorem wrapped_lookup_bound)" % (name, tmpl, text, mtok, s))
+                exp = _expect_value(libs, pre, lib, m)
+                needed.add(lib)
+            for form, g in obs:
+                inp = "%s ; program imports: %s" % (tmpl.replace("<>", ("%s" if form else "(%s)") % sym(name)), text)
+                if name in free:
+                    # a declared free name is looked up in the macro's context (the documented meaning of free names): no SPEC verdict;
+                    # the model of the code must predict the pair form ('unbound' also when an earlier probe in this environment already
+                    # made chibi create an undefined cell for the name); the identifier form resolves late in the closure's environment
+                    if form == "" and mtok != "L" and g != mval and g != "unbound":
+                        ctx.broken("correspondence:closed-free-name", "free name %s inside %s with imports %s: model %s, chibi %r" % (name, tmpl, text, mtok, g))
+                    continue
+                if s == "U":
+                    if g == "unbound":
+                        # right by the SPEC.  (Where the model predicts the leak, chibi still says unbound when an earlier probe in the same
+                        # environment referred to the name first: analyze_var_ref then created an undefined cell for it in the program's own
+                        # frame, which the copied frames share.  The leak needs the FIRST reference to be inside the closure.)
+                        if mtok != "U" and form == "":
+                            ctx.cov["standing_leak_masked"] = ctx.cov.get("standing_leak_masked", 0) + 1
+                        continue
+                    if mtok.startswith("O:") and g == mval:
+                        # the standing leak (F-C14-2): exactly the binding the macro library's environment has under that name
+                        ctx.cov["standing_leak_cases"] = ctx.cov.get("standing_leak_cases", 0) + 1
+                        if leak_registered():
+                            ctx.violation(LEAK_SIG, input=inp, name=name, graph=graph,
+                                          expected="unbound (the program does not import %s)" % name, observed=repr(g),
+                                          replay=replay_closed(d, moddir, isets, tmpl, name, top))
+                        continue
+                    ctx.violation(sigbase + "unexpectedly-bound" + form, input=inp, name=name, graph=graph,
+                                  wrappers=kinds, expected="unbound (not in the program's import sets)%s" % ("" if mtok == "U" else "; the known leak would give %s" % mtok),
+                                  observed=repr(g), replay=replay_closed(d, moddir, isets, tmpl, name, top))
+                    continue
+                if g == exp:
+                    continue
                 if g == "unbound":
-                    if mtok != "U":
-                        ctx.broken("correspondence:closed-leak-model", "%s inside %s with imports %s: the model of sexp_extend_synclo_env predicts %s, chibi says unbound" % (name, tmpl, text, mtok))
-                    continue
-                if mtok.startswith("O:") and g == mval:
-                    # the standing leak (F-C14-2): exactly the binding the macro library's environment has under that name
-                    ctx.cov["standing_leak_cases"] = ctx.cov.get("standing_leak_cases", 0) + 1
-                    if leak_registered():
-                        ctx.violation(LEAK_SIG, input="%s ; program imports: %s" % (tmpl.replace("<>", sym(name)), text), name=name, graph=graph,
-                                      expected="unbound (the program does not import %s)" % name, observed=repr(g),
-                                      replay=replay_closed(d, moddir, isets, tmpl, name, top))
-                    continue
-                ctx.violation(sigbase + "unexpectedly-bound", input="%s ; program imports: %s" % (tmpl.replace("<>", sym(name)), text), name=name, graph=graph,
-                              wrappers=kinds, expected="unbound (not in the program's import sets)%s" % ("" if mtok == "U" else "; the known leak would give %s" % mtok),
+                    cls = "unbound"
+                elif isinstance(g, tuple) and len(g) >= 3 and g[0] == exp[0] and g[1] == exp[1] and g[0] in ("v14tick", "v14ctr"):
+                    cls = "state-not-shared"
+                    if ticked:
+                        ticks[lib] = g[2]
+                else:
+                    cls = "wrong-binding"
+                ctx.violation(sigbase + cls + form, input=inp, name=name, graph=graph, wrappers=kinds,
+                              expected="%s (the program's own import: the definition of %s in library %s, exactly as outside the macro)" % (exp, m, lib),
                               observed=repr(g), replay=replay_closed(d, moddir, isets, tmpl, name, top))
-                continue
-            _, lib, m = s.split(":", 2)
-            if lib not in libs:
-                ctx.broken("spec-driver", "origin names an unknown library: %s" % s)
-                continue
-            if mtok != s:
-                ctx.broken("model:closed-vs-spec", "%s inside %s with imports %s: SynClo.closed_probe says %s, Spec.program_origin %s (theorem wrapped_lookup_bound)" % (name, tmpl, text, mtok, s))
-            exp = _expect_value(libs, pre, lib, m)
-            needed.add(lib)
-            if g == exp:
-                continue
-            if g == "unbound":
-                cls = "unbound"
-            elif isinstance(g, tuple) and len(g) >= 3 and g[0] == exp[0] and g[1] == exp[1] and g[0] in ("v14tick", "v14ctr"):
-                cls = "state-not-shared"
-                if ticked:
-                    ticks[lib] = g[2]
-            else:
-                cls = "wrong-binding"
-            ctx.violation(sigbase + cls, input="%s ; program imports: %s" % (tmpl.replace("<>", sym(name)), text), name=name, graph=graph, wrappers=kinds,
-                          expected="%s (the program's own import: the definition of %s in library %s, exactly as outside the macro)" % (exp, m, lib),
-                          observed=repr(g), replay=replay_closed(d, moddir, isets, tmpl, name, top))
     if live and not getattr(ctx, "_c14_closed_sampled", False) and len(live[0]["stack"]) >= 1:
         ctx._c14_closed_sampled = True
         ctx.sample(dict(kind="closed", imports=[iset_str(i) for i in isets], template=template(live[0]["stack"]), names=names[:8],
